@@ -81,7 +81,8 @@ type frag struct {
 	Text []string        `json:"text"` // lines; the first line continues after "@name " (sets) or stands alone (handlers)
 	JSON json.RawMessage `json:"json"`
 	Perm string          `json:"perm,omitempty"`
-	Deep bool            `json:"deep,omitempty"` // a triple reordering: thorough tier only
+	Deep bool            `json:"deep,omitempty"` // a triple reordering / three-option sequence: thorough tier only
+	Gen  bool            `json:"gen,omitempty"`  // generated from the documented syntax (grammar.go), not taken from a test vector
 }
 
 var sets, handlers []frag
@@ -191,6 +192,9 @@ func derive(fr frag) []frag {
 	return out
 }
 
+// first indexes of the fragments generated from the documented syntax
+var genS0, genH0 int
+
 func deriveAll() {
 	nOrigS, nOrigH = len(sets), len(handlers)
 	for i := 0; i < nOrigS; i++ {
@@ -199,6 +203,10 @@ func deriveAll() {
 	for i := 0; i < nOrigH; i++ {
 		handlers = append(handlers, derive(handlers[i])...)
 	}
+	genS0, genH0 = len(sets), len(handlers)
+	gs, gh := genFragments()
+	sets = append(sets, gs...)
+	handlers = append(handlers, gh...)
 }
 
 // canon sorts every array, so that two configurations compare equal when they differ only in
@@ -731,11 +739,16 @@ func scenarios(tier string, yield func(any) bool) {
 	}
 	// the options of one block written in another order (every ordered pair of options moved
 	// to the front, the reversal; ordered triples in the thorough tier)
+	// ... and the fragments generated from the documented syntax (grammar.go)
 	for hi := nOrigH; hi < len(handlers); hi++ {
 		if handlers[hi].Deep && tier != "thorough" {
 			continue
 		}
-		if !one([]SetRef{{S: 0}}, []RouteSpec{{Sets: []int{0}, H: []HRef{{H: hi, WS: -1}}}}, "global", false) {
+		form := "global"
+		if handlers[hi].Gen && hi%7 == 0 {
+			form = "wrapper"
+		}
+		if !one([]SetRef{{S: 0}}, []RouteSpec{{Sets: []int{0}, H: []HRef{{H: hi, WS: -1}}}}, form, false) {
 			return
 		}
 	}
@@ -743,7 +756,7 @@ func scenarios(tier string, yield func(any) bool) {
 		if sets[si].Deep && tier != "thorough" {
 			continue
 		}
-		if !one([]SetRef{{S: si}}, []RouteSpec{{Sets: []int{0}, H: []HRef{h0}}}, "global", false) {
+		if !one([]SetRef{{S: si, Not: sets[si].Gen && si%5 == 0}}, []RouteSpec{{Sets: []int{0}, H: []HRef{h0}}}, "global", false) {
 			return
 		}
 	}
@@ -770,7 +783,7 @@ func main() {
 	runner.Main(&runner.Harness{
 		ID:    "C15",
 		Level: "model_checking",
-		Rule:  fmt.Sprintf("building blocks extracted from the repository's adaptation test vectors (%d matcher-set fragments, %d handler fragments, each with the JSON stated for it); configurations composed exhaustively: every set x every handler, every set under 'not', every handler inside tee and inside subroute (guarded and unguarded), ordered pairs of named sets (OR in one route, reuse in another, a route without matchers), ordered pairs of handlers, matching_timeout, two servers with several listen addresses, global-option (servers in one global layer4 block or one block each) and listener-wrapper forms, and every fragment with the option lines of one of its blocks reordered (every ordered pair of options moved to the front, the reversal; ordered triples in thorough; JSON compared up to the order of list elements; an order the parser rejects is not judged); each printed as Caddyfile and as expected JSON and pushed through the real adapter; states = distinct composed configurations", len(sets), len(handlers)),
+		Rule:  fmt.Sprintf("building blocks extracted from the repository's adaptation test vectors (%d matcher-set fragments, %d handler fragments, each with the JSON stated for it); configurations composed exhaustively: every set x every handler, every set under 'not', every handler inside tee and inside subroute (guarded and unguarded), ordered pairs of named sets (OR in one route, reuse in another, a route without matchers), ordered pairs of handlers, matching_timeout, two servers with several listen addresses, global-option (servers in one global layer4 block or one block each) and listener-wrapper forms, fragments generated from the documented syntax of the proxy handler (health checks, load balancing, proxy_protocol, upstream forms), the tls handler (connection policies), the tls matcher (sni, alpn, local_ip, remote_ip with ! and private_ranges), the http matcher and the ip matchers - every sequence of up to 2 (3 thorough) options in every order, each option written once as (Caddyfile line, JSON patch) - and every test-vector fragment with the option lines of one of its blocks reordered (every ordered pair of options moved to the front, the reversal; ordered triples in thorough; JSON compared up to the order of list elements; an order the parser rejects is not judged); each printed as Caddyfile and as expected JSON and pushed through the real adapter; states = distinct composed configurations", len(sets), len(handlers)),
 		Assumptions: []string{
 			"the JSON the maintainers' test vectors state for a fragment is the specification of that fragment; composition (routes, named sets, nesting, servers, wrapper form) is specified by the harness's own printers",
 			"determinism is judged on 6 adaptations of each configuration (map iteration order is not controlled)",
